@@ -827,7 +827,20 @@ func init() {
 			if B == 0 {
 				nwant = nvarargs
 			}
-			// +inline-call reg.CopyRange RA cf.Base+nparams+1 cf.LocalBase nwant
+			if B == 0 {
+				// +inline-call reg.CopyRange RA cf.Base+nparams+1 cf.LocalBase nwant
+			} else {
+				// a fixed result count must not move the register top:
+				// locals above the targets are still live
+				start := cf.Base + nparams + 1
+				for i := 0; i < nwant; i++ {
+					if start+i < cf.LocalBase {
+						reg.Set(RA+i, reg.Get(start+i))
+					} else {
+						reg.Set(RA+i, LNil)
+					}
+				}
+			}
 			return 0
 		},
 		func(L *LState, inst uint32, baseframe *callFrame) int { //OP_NOP
